@@ -16,7 +16,7 @@ func init() {
 			"the consumer returns nil only for an empty queue, waits for reserved-but-unpublished slots, clears a slot before advancing, follows the jump marker; every slot access is atomic; the cache pops only under the eviction lock and never drops a task it could not push. "+
 			"NOT decided: exactly-once / per-producer FIFO delivery over all interleavings.",
 		[]string{"sync/atomic operations are sequentially consistent (Go memory model)", "there is a single consumer (decided separately by C16.single)"},
-		ruleC16Reserve, ruleC16Full, ruleC16Cap, ruleC16Resize, ruleC16Pop, ruleC16Atomic, ruleC16Single, ruleC14After, ruleC16Init, ruleC16Order, ruleC16Consume)
+		ruleC16Reserve, ruleC16Full, ruleC16Cap, ruleC16Resize, ruleC16Pop, ruleC16Atomic, ruleC16Single, ruleC14After, ruleC16Init, ruleC16Order, ruleC16Consume, ruleC16InvalidateOrder)
 }
 
 const queuePkg = "internal/deque/queue"
@@ -412,19 +412,53 @@ func ruleC16Full(cx *Ctx) {
 	{
 		ok := false
 		mq := cx.P.Field(queuePkg, "MPSC", "maxQueueCapacity")
+		isSize := func(v ssa.Value) bool {
+			d, isD := v.(*ssa.BinOp)
+			if !isD || d.Op != token.SUB {
+				return false
+			}
+			px, okx := d.X.(*ssa.Parameter)
+			py, oky := d.Y.(*ssa.Parameter)
+			return okx && oky && px == bparam(avail, 1) && py == bparam(avail, 2)
+		}
+		allRets := true
+		nRets := 0
 		allInstrs(avail, func(in ssa.Instruction) {
-			if ret, isRet := in.(*ssa.Return); isRet && len(ret.Results) == 1 {
-				if b, isB := ret.Results[0].(*ssa.BinOp); isB && b.Op == token.SUB && sameField(fieldOf(b.X), mq) {
-					if d, isD := b.Y.(*ssa.BinOp); isD && d.Op == token.SUB {
-						px, okx := d.X.(*ssa.Parameter)
-						py, oky := d.Y.(*ssa.Parameter)
-						if okx && oky && px == bparam(avail, 1) && py == bparam(avail, 2) {
-							ok = true
+			ret, isRet := in.(*ssa.Return)
+			if !isRet || len(ret.Results) != 1 {
+				return
+			}
+			nRets++
+			vals := []ssa.Value{ret.Results[0]}
+			var preds []*ssa.BasicBlock
+			if ph, isPhi := ret.Results[0].(*ssa.Phi); isPhi {
+				vals = ph.Edges
+				preds = ph.Block().Preds
+			}
+			for i, v := range vals {
+				if b, isB := v.(*ssa.BinOp); isB && b.Op == token.SUB && sameField(fieldOf(b.X), mq) && isSize(b.Y) {
+					ok = true
+					continue
+				}
+				// a saturating form: 0 exactly when the size p - c has reached the capacity
+				sat := false
+				if k, isK := constInt(v); isK && k == 0 {
+					gs := guardsAt(ret.Block())
+					if preds != nil {
+						gs = guardsOnEdge(preds[i], ret.Block())
+					}
+					for _, g := range gs {
+						if c, isC := g.Cond.(*ssa.BinOp); isC && isSize(c.X) && sameField(fieldOf(c.Y), mq) && ((c.Op == token.GEQ && g.Truth) || (c.Op == token.LSS && !g.Truth)) {
+							sat = true
 						}
 					}
 				}
+				if !sat {
+					allRets = false
+				}
 			}
 		})
+		ok = ok && allRets && nRets > 0
 		cx.R.Check(ok, rule, funcName(avail), "formula", cx.P.Pos(avail.Pos()), "availableInQueue(p, c) = maxQueueCapacity - (p - c)")
 	}
 }
